@@ -130,6 +130,72 @@ class C07(PropBase):
                         return
                     rep.nontriv(("bds20", fr, r, u))
 
+        if not self.shown(rep, run, rng, tier, driver_ok):
+            return
+
+    def shown(self, rep, run, rng, tier, driver_ok):
+        """the W and CALLSIGN cells of the printed rows: wake class L,S,M,H,J,R for type code 4 with category 1,2,3,4,5,7, blank for
+        anything else - also for aircraft that carry an ACAS threat mark (the cell before W), a squawk, a position; call sign as
+        recorded"""
+        from props import render_common as RC
+        WAKE = {(4, 1): "L", (4, 2): "S", (4, 3): "M", (4, 4): "H", (4, 5): "J", (4, 7): "R"}
+        for rnd in range(2 if tier == "quick" else 12):
+            for u in (False, True):
+                pre, want = [], {}
+                i = 0
+                for tc in (1, 2, 3, 4):
+                    for ca in range(8):
+                        for threat in (0, 1, 2):
+                            a = 0x610000 + i; i += 1
+                            codes = [rng.choice([1, 5, 20, 26, 48, 57, 32]) for _ in range(8)]
+                            pre.append(F.df11(5, a, 0))
+                            pre.append(F.df17(5, a, F.me_ident(tc, ca, codes)))
+                            if threat:
+                                pre.append(F.df20(0, 0, 0, F.ac13_q1(1000), F.bds30(threat_multi=int(threat == 2), ara_first=int(threat == 1)), a))
+                            if rng.random() < 0.3:
+                                pre.append(F.df5(0, 0, 0, rng.randrange(8192), a))
+                            want[a] = (WAKE.get((tc, ca), " "), expect_callsign(codes))
+                # an aircraft with a threat mark and no identification squitter at all
+                a = 0x610000 + i
+                pre += [F.df11(5, a, 0), F.df20(0, 0, 0, F.ac13_q1(1000), F.bds30(threat_multi=1, ara_first=1), a)]
+                want[a] = (" ", "")
+                groups = rng.choice(["aAews", "", "e"])
+                ops = ["reset", gen.cfg_op(use_update=u, relaxed=bool(rnd % 2), groups=groups if groups else "x", order="", delete_after=600), "case 0"] \
+                    + gen.seg(pre) + ["dump", "render"]
+                impl, so, model = run.execute(ops, model=driver_ok)
+                rep.evaluations += len(want); rep.traces += 1
+                self.corr(rep, impl, model, {"shown": True, "use_update": u})
+                ir = RC.renders(so)
+                if len(ir) != 1:
+                    raise core.Broken("render markers missing in the implementation's stdout", so[-300:])
+                header, rows_txt = ir[0][0], ir[0][2:]
+                cells = {n: (pos, w) for n, pos, w in RC.header_cells(header)}
+                if "W" not in cells or "CALLSIGN" not in cells:
+                    self.fail(rep, f"the header has no W / CALLSIGN column: {header!r}", {"ops": ops, "header": header})
+                    return False
+                seen = set()
+                for t in rows_txt:
+                    if len(t) < 6 or not all(c in "0123456789ABCDEF" for c in t[:6]):
+                        continue
+                    a = int(t[:6], 16)
+                    if a not in want:
+                        continue
+                    seen.add(a)
+                    wcell = t[cells["W"][0]:cells["W"][0] + 1]
+                    ccell = t[cells["CALLSIGN"][0]:cells["CALLSIGN"][0] + 8].rstrip()
+                    if wcell != want[a][0]:
+                        self.fail(rep, f"aircraft {a:06X}: the W column shows {wcell!r}, the emitter category says {want[a][0]!r} (row {t[:40]!r})",
+                                  {"ops": ["reset", gen.cfg_op(use_update=u, relaxed=bool(rnd % 2))] + gen.seg(pre) + ["dump", "render"], "address": a, "row": t})
+                        return False
+                    if ccell != want[a][1]:
+                        self.fail(rep, f"aircraft {a:06X}: the CALLSIGN column shows {ccell!r}, the identification squitter says {want[a][1]!r}",
+                                  {"ops": ["reset", gen.cfg_op(use_update=u, relaxed=bool(rnd % 2))] + gen.seg(pre) + ["dump", "render"], "address": a, "row": t})
+                        return False
+                if seen != set(want):
+                    raise core.Broken("rendered table does not list every aircraft of the scenario", str(len(seen)))
+                rep.nontriv(("shown", rnd, u))
+        return True
+
     def judge_replay(self, rep, obj, impl, so, model):
         super().judge_replay(rep, obj, impl, so, model)
         if "expected_ais" in obj:
